@@ -5,6 +5,8 @@ wt, x, prop, sid, caught = sys.argv[1:6]
 src = os.path.join(wt, 'out', x)
 if not os.path.isdir(src):
     src = os.path.join(wt, 'out.done', x)
+if not os.path.isdir(src):
+    src = os.path.join(wt, x)   # a plain directory holding <a|b>/patch.diff, demo.cpp, notes.md, verify.log
 dst = os.path.join('/verif/seeded', sid)
 os.makedirs(dst, exist_ok=True)
 # re-base the patch on the current /repo HEAD through the trial worktree
